@@ -280,3 +280,36 @@ impl AuthenticationBuiltin {
       .map_err(|e| security_error(&format!("Failed to generate random bytes: {}", e)))
   }
 }
+
+// ---------------------------------------------------------------------------
+// Verification hooks (add-only, compiled only with --cfg rustdds_verif).
+// Read-only projection of the per-remote handshake state and a signing helper
+// for the attacker side of the C19 harness (private_key is private to
+// crate::security).
+#[cfg(rustdds_verif)]
+impl AuthenticationBuiltin {
+  pub(crate) fn verif_handshake_state_name(&self, remote: IdentityHandle) -> &'static str {
+    match self.remote_participant_infos.get(&remote) {
+      None => "NoRemote",
+      Some(info) => match info.handshake.state {
+        BuiltinHandshakeState::PendingRequestSend => "PendingRequestSend",
+        BuiltinHandshakeState::PendingRequestMessage => "PendingRequestMessage",
+        BuiltinHandshakeState::PendingReplyMessage { .. } => "PendingReplyMessage",
+        BuiltinHandshakeState::PendingFinalMessage { .. } => "PendingFinalMessage",
+        BuiltinHandshakeState::CompletedWithFinalMessageSent { .. } => {
+          "CompletedWithFinalMessageSent"
+        }
+        BuiltinHandshakeState::CompletedWithFinalMessageReceived { .. } => {
+          "CompletedWithFinalMessageReceived"
+        }
+      },
+    }
+  }
+}
+
+#[cfg(rustdds_verif)]
+pub(crate) fn verif_sign_with_pem(key_pem: &[u8], data: &[u8]) -> SecurityResult<Bytes> {
+  private_key::PrivateKey::from_pem(key_pem)
+    .map_err(SecurityError::from)?
+    .sign(data)
+}
